@@ -854,7 +854,11 @@ pub fn parse(input: &str) -> Spec {
                 lexed.push(Lexed::Tok(Tok::Or));
                 continue;
             }
-            "nope" => return Spec::Unspecified("the placeholder positional-option word"),
+            "nope" => {
+                // the subject's single positional-option word: a primary of its own kind
+                lexed.push(Lexed::Tok(Tok::Prim(Expr::Positional)));
+                continue;
+            }
             _ => {}
         }
         if word.contains('!') || word.contains(',') {
